@@ -42,6 +42,8 @@ const (
 	CatBatchDiff     = "batchdiff"      // batch vs single (C08)
 	CatBatchQuery    = "batchquery"     // query returned by a Q variant (C08, C03)
 	CatLock          = "lock"           // C09
+	CatResources     = "resources"      // C20
+	CatPanicRes      = "panic.resources"
 )
 
 // Finding is a categorized failure.
@@ -86,6 +88,8 @@ func classify(err error) *Finding {
 		}
 	case strings.Contains(msg, "Alive(") || strings.Contains(msg, "zero entity") || strings.Contains(msg, "Entities.Used") || strings.Contains(msg, "share id") || strings.Contains(msg, "already issued"):
 		cat = CatHandles
+	case strings.Contains(msg, "Resources."):
+		cat = CatResources
 	case strings.Contains(msg, "Relations.Get") || strings.Contains(msg, "Query.Relation"):
 		cat = CatRelation
 	case strings.Contains(msg, "Query(All())") || strings.Contains(msg, "still locked after"):
@@ -158,6 +162,8 @@ type Sim struct {
 	Step        int
 	// Flags are facts about the last op, for labels and non-triviality rules.
 	Flags map[string]int
+	// QueryHook, if set, is called with the open query a Q variant returned, before it is iterated.
+	QueryHook func(b *WB, q *ecs.Query) *Finding
 }
 
 // Flag records a fact about the current op.
@@ -316,9 +322,37 @@ func (s *Sim) Apply(op Op) {
 	s.TargetDied = false
 	s.Flags = nil
 	s.Step++
+	s.dispatch(o)
+	if s.Done() {
+		return
+	}
+	s.VerifyAll()
+}
+
+// applyInner runs an op that is part of another op (lock episodes) without booking it.
+func (s *Sim) applyInner(o *Op) { s.dispatch(o) }
+
+// dispatch executes one op.
+func (s *Sim) dispatch(o *Op) {
 	switch o.K {
 	case OpDumpLoad:
 		s.doDumpLoad(o)
+	case OpResAdd, OpResRemove:
+		s.doResource(o)
+	case OpDeadRead:
+		s.doDeadRead(o)
+	case OpCacheIll:
+		s.doCacheIll(o)
+	case OpTypeLimit:
+		s.doTypeLimit(o)
+	case OpLockEpisode:
+		s.doLockEpisode(o)
+	case OpLockDuring:
+		s.doLockDuring(o)
+	case OpLockLimit:
+		s.doLockLimit(o)
+	case OpRegisterNew:
+		s.doRegisterNew(o)
 	case OpNew, OpNewWith, OpBuildNew:
 		s.doCreate(o)
 	case OpBuildBatch:
@@ -348,10 +382,6 @@ func (s *Sim) Apply(op Op) {
 	default:
 		s.Report(finding(CatHarness, "unknown op kind %q", o.K))
 	}
-	if s.Done() {
-		return
-	}
-	s.VerifyAll()
 }
 
 // expectPanic handles the outcome of a call the model declares illegal. Returns true if the
@@ -639,6 +669,12 @@ func (s *Sim) drainCreateQuery(o *Op, b *WB, q *ecs.Query, st EntState) ([]ecs.E
 	if !b.W.IsLocked() {
 		q.Close()
 		return nil, finding(CatLock, "%s: world not locked while the NewBatchQ query is open", b.Name)
+	}
+	if s.QueryHook != nil {
+		if fd := s.QueryHook(b, q); fd != nil {
+			q.Close()
+			return nil, fd
+		}
 	}
 	vals := s.createVals(o)
 	hs := []ecs.Entity{}
@@ -1342,6 +1378,16 @@ func (s *Sim) drainBatchQuery(o *Op, b *WB, q *ecs.Query, affected []int, next m
 		q.Close()
 		return finding(CatBatchQuery, "%s: query of %s counts %d entities, %d were affected (%v)", b.Name, o.Describe(), c, len(want), sortedCopy(affected))
 	}
+	if fd := illegalQueryCalls(b, q, o.Script, len(want), "query of "+o.K); fd != nil {
+		q.Close()
+		return fd
+	}
+	if s.QueryHook != nil {
+		if fd := s.QueryHook(b, q); fd != nil {
+			q.Close()
+			return fd
+		}
+	}
 	seen := map[int]bool{}
 	for q.Next() {
 		if b.Rec != nil && len(b.Rec.Cur) > 0 {
@@ -1477,6 +1523,7 @@ func (s *Sim) doReset(o *Op) {
 			return
 		}
 		b.ForgetHandles()
+		b.ResPtr = [NumRes]any{}
 	}
 	if len(s.everTgt) > 0 {
 		s.TargetDied = true
@@ -1500,7 +1547,9 @@ func (s *Sim) doDumpLoad(o *Op) {
 			s.unexpectedPanic(o, b, p, CatPanicReset)
 			return
 		}
+		b.ResPtr = [NumRes]any{}
 	}
+	s.M.Res = [NumRes]bool{}
 	for i := range s.M.Ents {
 		e := &s.M.Ents[i]
 		if !e.Alive {
